@@ -1,6 +1,8 @@
+import os
 import pickle
 import re
 import stat
+import threading
 import time
 import typing
 
@@ -150,8 +152,16 @@ class DirHandler(BaseHandler):
         if getattr(self, "cacheunusable", False):
             # ... nor write to it.
             return
+        # Write the new cache next to the old one and put it in place in one
+        # step: a reader that is part-way through the old file keeps reading
+        # the old file, and never sees a mix of two generations.
+        tmpname = "%s.%d-%d.tmp" % (self.cachename, os.getpid(), threading.get_ident())
         try:
-            with self.vfs.open(self.cachename, "wb") as fp:
+            with self.vfs.open(tmpname, "wb") as fp:
                 pickle.dump((self.selector, self.fileentries), fp, 1)
+            os.replace(self.vfs.getfspath(tmpname), self.vfs.getfspath(self.cachename))
         except IOError:
-            pass
+            try:
+                self.vfs.unlink(tmpname)
+            except OSError:
+                pass
